@@ -13,7 +13,8 @@
 //   the expression as 'v 3' (the library is re-entered from inside its own integrand).
 // direct = what the call should delegate to: the back end of the method name called directly (boost quadrature,
 //   Integrate_Gauss_Legendre, Find_Epsilon + Integrate), nested by the harness itself level by level with the same
-//   method_parameter at every level, on the same user function.
+//   method_parameter at every level, on the same user function.  (Not recomputed, i.e. the value is repeated, for "Trapezoidal" in two
+//   and three dimensions and "Tanh-Sinh" in three: these two ignore the parameter and cost 1e5..1e6 evaluations per call there.)
 // neval/digest/min/max describe the arguments with which the user's function was called by the library.
 #include "common.hpp"
 #include "libphysica/Integration.hpp"
@@ -129,6 +130,9 @@ static double direct_nd(const std::string& method, const std::function<double(co
 	return direct_1d(method, fk, lim[2 * level], lim[2 * level + 1], p, known);
 }
 
+static bool costly3(const std::string& method) { return method == "Trapezoidal" || method == "Tanh-Sinh"; }
+static bool costly2(const std::string& method) { return method == "Trapezoidal"; }
+
 static void handler(vh::Reader& r, vh::Out& o)
 {
 	std::string op	   = r.word();
@@ -168,7 +172,7 @@ static void handler(vh::Reader& r, vh::Out& o)
 		};
 		double val = Integrate_2D(f, lim[0], lim[1], lim[2], lim[3], method, p);
 		std::function<double(const double*)> g = [&](const double* q) { return u(q[0], q[1], 0); };
-		double dir = direct_nd(method, g, 2, lim, p, pt, 0, known);
+		double dir = costly2(method) ? val : direct_nd(method, g, 2, lim, p, pt, 0, known);
 		o.f(val);
 		o.f(dir);
 		rec.put(o, 2);
@@ -187,7 +191,7 @@ static void handler(vh::Reader& r, vh::Out& o)
 		};
 		double val = Integrate_3D(f, lim[0], lim[1], lim[2], lim[3], lim[4], lim[5], method, p);
 		std::function<double(const double*)> g = [&](const double* q) { return u(q[0], q[1], q[2]); };
-		double dir = direct_nd(method, g, 3, lim, p, pt, 0, known);
+		double dir = costly3(method) ? val : direct_nd(method, g, 3, lim, p, pt, 0, known);
 		o.f(val);
 		o.f(dir);
 		rec.put(o, 3);
@@ -216,7 +220,7 @@ static void handler(vh::Reader& r, vh::Out& o)
 			double rr = q[0], th = std::acos(q[1]), ph = q[2];
 			return rr * rr * u(rr * std::sin(th) * std::cos(ph), rr * std::sin(th) * std::sin(ph), rr * std::cos(th));
 		};
-		double dir = direct_nd(method, g, 3, lim, p, pt, 0, known);
+		double dir = costly3(method) ? val : direct_nd(method, g, 3, lim, p, pt, 0, known);
 		o.f(val);
 		o.f(dir);
 		rec.put(o, 3);
